@@ -6,6 +6,7 @@ package main
 import (
 	"encoding/json"
 	"fmt"
+	"math"
 	"os"
 	"sort"
 
@@ -14,15 +15,15 @@ import (
 )
 
 type Op struct {
-	K  string  `json:"k"` // app apps appopt get getv getp set setv setp len clear slice range actdrop actrev actnil
-	I  int64   `json:"i,omitempty"`
-	V  int64   `json:"v,omitempty"`
-	P  int64   `json:"p,omitempty"`
-	NP bool    `json:"np,omitempty"` // appopt: no priority argument
+	K  string `json:"k"` // app apps appopt get getv getp set setv setp len clear slice range actdrop actrev actnil
+	I  int64  `json:"i,omitempty"`
+	V  int64  `json:"v,omitempty"`
+	P  int64  `json:"p,omitempty"`
+	NP bool   `json:"np,omitempty"` // appopt: no priority argument
 	// set: called with the priority the element has at that moment (Set(i, v, GetPriority(i))); P is filled in when the
 	// case runs
-	Same bool `json:"same,omitempty"`
-	Vs []int64 `json:"vs,omitempty"`
+	Same bool    `json:"same,omitempty"`
+	Vs   []int64 `json:"vs,omitempty"`
 }
 type Res struct {
 	K   string     `json:"k"` // unit pair val len list panic
@@ -384,7 +385,11 @@ func genCase(rng *vh.RNG, next *int64) Case {
 		c.Cap = rng.Intn(5)
 	}
 	pdom := []int{1, 2, 2, 3, 3, 1000}[rng.Intn(6)]
+	extreme := rng.Chance(1, 8) // priorities at the ends of the int range (sentinels such as "always last"): differences overflow
 	prio := func() int64 {
+		if extreme && rng.Chance(1, 2) {
+			return []int64{math.MaxInt64, math.MaxInt64 - 1, math.MinInt64, math.MinInt64 + 1, math.MaxInt64 / 2, math.MinInt64 / 2}[rng.Intn(6)]
+		}
 		p := int64(rng.Intn(pdom))
 		if rng.Chance(1, 6) {
 			p = -p
